@@ -16,7 +16,7 @@
 //!   `A <c> <port> <payload hex>`     UDP datagram DNS_AUTH:53 -> c:port handed to the network
 //!   `R <c> <h> <name hex> <addr>`    lookup h returned Ok(addr)
 //!   `M <c> <name hex> <addr|-1>`     cache of client c after the run (DnsClient::get_mapping)
-//!   `E <DONE|HANG|CRASH <file:line>>` how the run ended
+//!   `E <DONE|HANG|CRASH <file>:<line>:<error kind in the panic message>>` how the run ended
 use elvis_core::{
     machine::Machine,
     message::Message,
@@ -175,7 +175,7 @@ async fn one_lookup(c: usize, kind: u8, name: Vec<u8>, machine: Arc<Machine>) {
     let text = String::from_utf8(name.clone()).expect("case names are UTF-8");
     let dns = machine.protocol::<DnsClient>().expect("DnsClient");
     if kind == 0 {
-        ev(format!("L {} {} {}", c, h, hex(&name)));
+        ev(format!("L {} {} {} 0", c, h, hex(&name)));
         let r = dns.get_host_by_name(text, machine.clone()).await;
         match r {
             Ok(ip) => ev(format!("R {} {} {} {}", c, h, hex(&name), ip.to_u32())),
@@ -185,12 +185,13 @@ async fn one_lookup(c: usize, kind: u8, name: Vec<u8>, machine: Arc<Machine>) {
         // Socket::connect_by_name (socket.rs l.73-87): the resolver is called through the sockets API
         let sockets = machine.protocol::<SocketAPI>().expect("SocketAPI");
         let mut socket = sockets.new_socket(ProtocolFamily::INET, SocketType::Datagram, machine.clone()).await.unwrap();
-        ev(format!("L {} {} {}", c, h, hex(&name)));
-        let ok = socket.connect_by_name(text.clone(), 0xbeef).await.is_ok();
+        ev(format!("L {} {} {} 1", c, h, hex(&name)));
+        // connecting to an address nobody owns fails after the ARP retries; only the resolution is observed here
+        let _ = socket.connect_by_name(text.clone(), 0xbeef).await;
         // the socket does not show its remote address; the address it connected to is what the cache holds
-        match (ok, dns.get_mapping(&text)) {
-            (true, Ok(ip)) => ev(format!("R {} {} {} {}", c, h, hex(&name), ip.to_u32())),
-            (o, m) => ev(format!("R {} {} {} ERR-{}-{:?}", c, h, hex(&name), o, m)),
+        match dns.get_mapping(&text) {
+            Ok(ip) => ev(format!("R {} {} {} {}", c, h, hex(&name), ip.to_u32())),
+            Err(e) => ev(format!("R {} {} {} ERR-{:?}", c, h, hex(&name), e)),
         }
     }
 }
@@ -226,11 +227,15 @@ fn dump_and_flush(extra: &[String]) {
     use std::io::Write;
     let stdout = std::io::stdout();
     let mut w = stdout.lock();
-    if let Ok(g) = MYLOG.try_lock() {
-        for l in g.iter() {
-            let _ = writeln!(w, "OUT {}", l);
-        }
+    // the panicking task never holds the log; other threads hold it only while they append
+    let g = match MYLOG.lock() {
+        Ok(g) => g,
+        Err(p) => p.into_inner(),
+    };
+    for l in g.iter() {
+        let _ = writeln!(w, "OUT {}", l);
     }
+    drop(g);
     for l in extra {
         let _ = writeln!(w, "OUT {}", l.replace('\n', " "));
     }
@@ -243,6 +248,13 @@ fn child(case: &str) -> ! {
     // run_internet chains the hook that is installed when it starts, prints a backtrace and exits the process
     // with code 1: this hook writes the trace collected so far and the panic location, then exits the same way
     std::panic::set_hook(Box::new(|info| {
+        // two tasks may panic at the same time on a multi-thread runtime: the first one reports
+        static REPORTED: std::sync::atomic::AtomicBool = std::sync::atomic::AtomicBool::new(false);
+        if REPORTED.swap(true, Ordering::SeqCst) {
+            loop {
+                std::thread::sleep(Duration::from_secs(1));
+            }
+        }
         let loc = info.location().map(|l| format!("{}:{}", l.file(), l.line())).unwrap_or_else(|| "?".into());
         let msg = if let Some(s) = info.payload().downcast_ref::<&str>() {
             s.to_string()
@@ -311,7 +323,7 @@ fn child(case: &str) -> ! {
         let how = tokio::select! {
             st = run_internet(&machines, None) => format!("EXIT-{:?}", st),
             _ = done.notified() => "DONE".to_string(),
-            _ = tokio::time::sleep(if paused { Duration::from_secs(3600) } else { Duration::from_secs(4) }) => "HANG".to_string(),
+            _ = tokio::time::sleep(if paused { Duration::from_secs(3600) } else { Duration::from_secs(20) }) => "HANG".to_string(),
         };
         // stray frames (a late or repeated reply, traffic after a cached lookup) would show up here
         tokio::time::sleep(if paused { Duration::from_secs(60) } else { Duration::from_millis(25) }).await;
@@ -344,7 +356,7 @@ fn child(case: &str) -> ! {
 
 #[derive(Clone, Debug, PartialEq)]
 enum Ev {
-    L { c: usize, h: usize, name: Vec<u8> },
+    L { c: usize, h: usize, name: Vec<u8>, kind: u8 },
     Q { c: usize, port: u16, from: u64, payload: Vec<u8> },
     A { c: usize, port: u16, payload: Vec<u8> },
     R { c: usize, h: usize, name: Vec<u8>, res: Result<u32, String> },
@@ -399,9 +411,26 @@ fn read_dns(p: &[u8]) -> Option<(u16, u16, Vec<u8>, Vec<u8>, Vec<u8>)> {
 }
 
 fn location_class(panic_line: &str) -> String {
-    // `PANIC <file>:<line> | msg` -> `<basename>:<line>`
-    let loc = panic_line.split(" | ").next().unwrap_or("?").trim_start_matches("PANIC ").trim();
-    loc.rsplit('/').next().unwrap_or(loc).to_string()
+    // `PANIC <file>:<line> | msg` -> `<basename>:<line>:<kind of error in the message>`
+    let mut it = panic_line.splitn(2, " | ");
+    let loc = it.next().unwrap_or("?").trim_start_matches("PANIC ").trim();
+    let msg = it.next().unwrap_or("");
+    let kind = if msg.contains("HeaderTooShort") {
+        "HeaderTooShort"
+    } else if msg.contains("InvalidName") {
+        "InvalidName"
+    } else if msg.contains("Cache") {
+        "Cache"
+    } else if msg.contains("Utf8") || msg.contains("utf-8") {
+        "Utf8"
+    } else if msg.contains("index out of bounds") {
+        "Index"
+    } else if msg.contains("overflow") {
+        "Overflow"
+    } else {
+        "Other"
+    };
+    format!("{}:{}", loc.rsplit('/').next().unwrap_or(loc), kind)
 }
 
 struct Parsed {
@@ -416,7 +445,7 @@ fn digest(cfg: &Cfg, r: &ChildResult) -> Parsed {
     for l in &r.out {
         let t: Vec<&str> = l.split(' ').collect();
         match t[0] {
-            "L" => evs.push(Ev::L { c: t[1].parse().unwrap(), h: t[2].parse().unwrap(), name: unhex(t[3]) }),
+            "L" => evs.push(Ev::L { c: t[1].parse().unwrap(), h: t[2].parse().unwrap(), name: unhex(t[3]), kind: t[4].parse().unwrap() }),
             "R" => evs.push(Ev::R {
                 c: t[1].parse().unwrap(),
                 h: t[2].parse().unwrap(),
@@ -467,7 +496,7 @@ fn render(cfg: &Cfg, p: &Parsed) -> String {
     let mut parts = vec![format!("N {}", cfg.connections())];
     for e in &p.evs {
         match e {
-            Ev::L { c, h, name } => parts.push(format!("L {} {} {}", c, h, hex(name))),
+            Ev::L { c, h, name, .. } => parts.push(format!("L {} {} {}", c, h, hex(name))),
             Ev::Q { c, port, payload, .. } => parts.push(format!("Q {} {} {}", c, port, hex(payload))),
             Ev::A { c, port, payload } => parts.push(format!("A {} {} {}", c, port, hex(payload))),
             Ev::R { c, h, name, res } => match res {
@@ -587,8 +616,9 @@ fn oracle(cfg: &Cfg, p: &Parsed) -> Result<(), String> {
     let mut open: BTreeMap<usize, usize> = BTreeMap::new(); // h -> client, for cached lookups in progress
     for (i, e) in p.evs.iter().enumerate() {
         match e {
-            Ev::L { c, h, name } => {
-                if first_ret.get(&(*c, name.clone())).map(|j| *j < i).unwrap_or(false) {
+            Ev::L { c, h, name, kind } => {
+                // (connect_by_name goes on to connect: its ARP traffic is not the resolver's)
+                if *kind == 0 && first_ret.get(&(*c, name.clone())).map(|j| *j < i).unwrap_or(false) {
                     open.insert(*h, *c);
                 }
             }
@@ -691,19 +721,26 @@ impl Family for C20 {
             }
         };
         let mut records: Vec<(Vec<u8>, u32)> = vec![];
+        // one scenario in six has a record whose query does not fit an 80-byte read (name of 25 bytes or more)
+        let long_at = if rng.coin(1, 6) { rng.below(k as u64) as usize } else { usize::MAX };
         for j in 0..k {
-            // lengths: 1, typical, the last one that fits the server's 80-byte read (24), 25, 40, 60, 200
-            let len = match rng.below(100) {
-                0..=5 => 1,
-                6..=45 => rng.range(2, 22) as usize,
-                46..=60 => 24,
-                61..=66 => 23,
-                67..=76 => 25,
-                77..=81 => 26,
-                82..=87 => 40,
-                88..=92 => 60,
-                93..=96 => 200,
-                _ => rng.range(27, 120) as usize,
+            // lengths: 1, typical, the last ones that fit the server's 80-byte read (23, 24), 25, 26, 40, 60, 200
+            let len = if j == long_at {
+                match rng.below(100) {
+                    0..=39 => 25,
+                    40..=54 => 26,
+                    55..=69 => 40,
+                    70..=79 => 60,
+                    80..=89 => 200,
+                    _ => rng.range(27, 120) as usize,
+                }
+            } else {
+                match rng.below(100) {
+                    0..=7 => 1,
+                    8..=59 => rng.range(2, 22) as usize,
+                    60..=69 => 23,
+                    _ => 24,
+                }
             };
             let style = rng.below(3);
             let mut name = gen_name(rng, len, style);
@@ -780,7 +817,7 @@ impl Family for C20 {
 
     fn run(case: &str) -> Outcome {
         let cfg = parse(case);
-        let r = run_child(case, Duration::from_secs(30));
+        let r = run_child(case, Duration::from_secs(90));
         let p = digest(&cfg, &r);
         stat(&format!("flavor-{}", if cfg.flavor == 0 { "paused".to_string() } else { format!("multi{}", cfg.flavor) }));
         stat(&format!("records-{}", cfg.records.len()));
